@@ -8,6 +8,7 @@ import itertools
 import numpy as np
 
 from mc.engine import Clause, Res
+from mc import layouts as _layouts
 
 from ibldsp import cadzow, voltage, smooth, spiketrains
 
@@ -352,5 +353,6 @@ CHECK = {
         Clause("nan-fill", "smooth_interpolate_savgol fills every NaN pattern", cases=nan_cases, check=nan_check),
         Clause("venn", "spike coincidence counting conserves spikes for every small train and chunking", cases=venn_cases, check=venn_check),
         Clause("stack", "stack by label for every label vector", cases=stack_cases, check=stack_check, setup=_setup),
+        _layouts.make_clause(__import__("checks._layout_specs", fromlist=["x"]).c20()),
     ],
 }
